@@ -40,7 +40,7 @@ def run(ctx):
                     r.fail(rule, 'tick:insert-dominates-send', 'a publish response can be queued without its notification being retained under (subscription id, sequence number) (dominates=%s key=%s value=%s)' % (dom, bool(key_ok), val_ok), detail='key %s' % k[:160], loc=c.loc)
     # ---------------- (ii)
     rule = 'acknowledge'
-    cl = db.find_bodies(SUBS + r'process_subscription_acknowledgements::\{closure#\d+\}$')
+    cl = db.find_bodies(SUBS + r'process_subscription_acknowledgements(::\{closure#\d+\})*$')   # the loop body, however it is nested
     done = False
     for cb in cl:
         F = ctx.facts(cb)
